@@ -24,7 +24,7 @@ fn cond_vars(c: &Cond, out: &mut BTreeSet<usize>) {
 fn assigned(b: &[Stmt], out: &mut BTreeSet<usize>) {
     for s in b {
         match s {
-            Stmt::Assign(x, _) => {
+            Stmt::Assign(x, _) | Stmt::AssignVar(x, _) => {
                 out.insert(*x);
             }
             Stmt::If(_, t, ei, e) => {
@@ -69,6 +69,9 @@ fn reads(b: &[Stmt], out: &mut BTreeSet<usize>) {
             Stmt::BreakIf(c) => cond_vars(c, out),
             Stmt::Use(x) => {
                 out.insert(*x);
+            }
+            Stmt::AssignVar(_, y) => {
+                out.insert(*y);
             }
             Stmt::Assign(..) => {}
         }
